@@ -165,6 +165,11 @@ def run(ctx, res):
                       "the head back into its own state afterwards" % ("the retry" if badp == "backedge" else badp), fl.loc())
     else:
         res.ok(rid11, "glr-layout-state-bracket", fl.loc(), "%d paths through the layout parser" % nbr)
+    # S12 the span bracket around the layout sub-parser (decided by C13-R10, shared): without it LR and GLR disagree on the
+    # span of a parent with a right-nulled tail under a Layout rule
+    rid12 = res.rule("C07-S12", "LR and GLR put the context's span back after the layout parser ran (shares C13-R10): the anchor "
+                     "of EMPTY, and with it the span of every parent that ends in one, is the same in both", floor=2)
+    c13.r_layout_span(F, res, rid12)
     rid8 = res.rule("C07-S8", "Tree::build replays a forest tree through an LR builder in post-order with the LR loop's call protocol "
                     "(shift_action(ctx, token); children left to right, then reduce_action(ctx, prod, children.len()))", floor=2)
     h = F.one(r"^rustemo::glr::gss::Tree::<[^>]*>::build_inner$")
